@@ -340,7 +340,7 @@ def machine():
 
 def shards(tier, seed):
     q = tier == 'quick'
-    return [{'n': 30 if q else 800, 'steps': 30} for _ in range(16)]
+    return [{'n': 30 if q else 1600, 'steps': 30} for _ in range(16)]
 
 
 def run_shard(spec, ctx):
